@@ -398,3 +398,123 @@ def db_tables() -> str:
             f"Definition sge_proc_targeton_first : list string := {sl(first_calls('sge_proc.py', 'proc_targeton', 1))}.\n"
             f"Definition sge_proc_contig_first : list string := {sl(first_calls('sge_proc.py', 'proc_contig', 1))}.\n"
             f"Definition cdna_proc_targeton_first : list string := {sl(first_calls('cdna_proc.py', 'proc_targeton', 2))}.\n")
+
+
+def _pydantic_fields(rel: str, cls: str) -> list[tuple[str, str, bool]]:
+    """[(python name, alias or python name, has a default)] of the annotated Field(...) assignments of a class."""
+    tree = ast.parse(_src(rel))
+    for node in tree.body:
+        if isinstance(node, ast.ClassDef) and node.name == cls:
+            out = []
+            for st in node.body:
+                if isinstance(st, ast.AnnAssign) and isinstance(st.target, ast.Name):
+                    v = st.value
+                    if not (isinstance(v, ast.Call) and _names(v.func) == 'Field'):
+                        raise FactError(f'{cls}.{st.target.id} is not declared with Field(...)')
+                    if v.args:
+                        raise FactError(f'{cls}.{st.target.id}: positional Field arguments are not modelled')
+                    kw = {k.arg: k.value for k in v.keywords}
+                    if set(kw) - {'alias', 'default', 'discriminator'}:
+                        raise FactError(f'{cls}.{st.target.id}: unexpected Field keywords {sorted(kw)}')
+                    alias = kw['alias'].value if 'alias' in kw and isinstance(kw['alias'], ast.Constant) else st.target.id
+                    out.append((st.target.id, alias, 'default' in kw))
+            return out
+    raise FactError(f'{rel}: class {cls} not found')
+
+
+def _click_command(rel: str, func: str):
+    """-> (parameter names of the command function, {kwarg: value name} of the single Config(...) call in it, config class)."""
+    tree = ast.parse(_src(rel))
+    for node in tree.body:
+        if isinstance(node, ast.FunctionDef) and node.name == func:
+            params = [a.arg for a in node.args.args]
+            calls = [n for n in ast.walk(node) if isinstance(n, ast.Call) and _names(n.func) in ('SGEConfig', 'CDNAConfig')]
+            if len(calls) != 1 or calls[0].args:
+                raise FactError(f'{rel}.{func}: expected exactly one keyword-only Config(...) call')
+            kws = {}
+            for k in calls[0].keywords:
+                if k.arg is None or _names(k.value) is None:
+                    raise FactError(f'{rel}.{func}: Config argument {k.arg} is not a plain name')
+                kws[k.arg] = k.value.id
+            opts = {}     # destination parameter -> option spelling, from the decorators of this command
+            for dec in node.decorator_list:
+                if isinstance(dec, ast.Call) and isinstance(dec.func, ast.Attribute) and dec.func.attr in ('option', 'argument'):
+                    strs = [a.value for a in dec.args if isinstance(a, ast.Constant) and isinstance(a.value, str)]
+                    if not strs:
+                        raise FactError(f'{rel}.{func}: click decorator without a name')
+                    first = strs[0]
+                    dest = strs[1] if len(strs) > 1 and not strs[1].startswith('-') else first.lstrip('-').replace('-', '_')
+                    opts[dest] = first.lstrip('-')
+            return params, kws, _names(calls[0].func), opts
+    raise FactError(f'{rel}: command {func} not found')
+
+
+def _common_options() -> dict[str, str]:
+    tree = ast.parse(_src('common_cli.py'))
+    for node in tree.body:
+        if isinstance(node, ast.FunctionDef) and node.name == 'common_params':
+            opts = {}
+            for inner in node.body:
+                if isinstance(inner, ast.FunctionDef):
+                    for dec in inner.decorator_list:
+                        if isinstance(dec, ast.Call) and isinstance(dec.func, ast.Attribute) and dec.func.attr in ('option', 'argument'):
+                            strs = [a.value for a in dec.args if isinstance(a, ast.Constant) and isinstance(a.value, str)]
+                            first = strs[0]
+                            dest = strs[1] if len(strs) > 1 and not strs[1].startswith('-') else first.lstrip('-').replace('-', '_')
+                            opts[dest] = first.lstrip('-')
+            return opts
+    raise FactError('common_params not found')
+
+
+@extractor('ConfigFields')
+def config_fields() -> str:
+    """C16: configuration fields and aliases, CLI parameters forwarded to them, README tables."""
+    base = _pydantic_fields('config.py', 'BaseConfig')
+    sge = _pydantic_fields('sge_config.py', 'SGEConfig')
+    cdna = _pydantic_fields('cdna_config.py', 'CDNAConfig')
+    main = _pydantic_fields('main_config.py', 'BaseMainConfig')
+    sp, skw, scls, sopts = _click_command('sge_cli.py', 'sge')
+    cp, ckw, ccls, copts = _click_command('cdna_cli.py', 'cdna')
+    common = _common_options()
+    if scls != 'SGEConfig' or ccls != 'CDNAConfig':
+        raise FactError('commands do not build SGEConfig / CDNAConfig')
+    # by_alias dump, populate_by_name load
+    for rel, fn in (('config.py', 'write'), ('main_config.py', 'write')):
+        src = _src(rel)
+        if 'model_dump_json(by_alias=True)' not in src:
+            raise FactError(f'{rel}: write() does not dump by alias')
+    pop = all('populate_by_name = True' in _src(r) for r in ('config.py', 'main_config.py'))
+    # __init__ validates: `if not ...is_valid(): raise InvalidConfig()`
+    init_validates = bool(re.search(r'def __init__\(.*?\n(?:.*\n)*?\s+if not \w+\.is_valid\(\):\s*\n\s+raise InvalidConfig\(\)', _src('config.py')))
+    # README tables
+    readme = open(os.path.join(common_mod().REPO, 'README.md')).read()
+    sec = readme.split('### Configuration file', 1)[1].split('\n### ', 1)[0]
+    pairs = re.findall(r'^\|`([\w\-]+)`\|`(\w+)`\|\s*$', sec, flags=re.M)
+    if len(pairs) < 10:
+        raise FactError('README CLI / JSON property tables not recognised')
+
+    def fl(fs):
+        return '[' + '; '.join(f'({coq_str(n)}, {coq_str(a)}, {"true" if d else "false"})' for n, a, d in fs) + ']'
+
+    def pl(d):
+        return '[' + '; '.join(f'({coq_str(k)}, {coq_str(v)})' for k, v in d.items()) + ']'
+    sl = lambda l: '[' + '; '.join(coq_str(x) for x in l) + ']'
+    return ('From Coq Require Import String List Bool.\nImport ListNotations.\nLocal Open Scope string_scope.\n'
+            'Definition fact_extracted : bool := true.\n'
+            f'Definition base_fields : list (string * string * bool) := {fl(base)}.\n'
+            f'Definition sge_fields : list (string * string * bool) := {fl(sge)}.\n'
+            f'Definition cdna_fields : list (string * string * bool) := {fl(cdna)}.\n'
+            f'Definition main_fields : list (string * string * bool) := {fl(main)}.\n'
+            f'Definition sge_cli_params : list string := {sl(sp)}.\n'
+            f'Definition cdna_cli_params : list string := {sl(cp)}.\n'
+            f'Definition sge_cli_forward : list (string * string) := {pl(skw)}.\n'
+            f'Definition cdna_cli_forward : list (string * string) := {pl(ckw)}.\n'
+            f'Definition sge_cli_options : list (string * string) := {pl({**common, **sopts})}.\n'
+            f'Definition cdna_cli_options : list (string * string) := {pl({**common, **copts})}.\n'
+            f'Definition readme_cli_json : list (string * string) := {pl(dict(pairs))}.\n'
+            f'Definition populate_by_name : bool := {"true" if pop else "false"}.\n'
+            f'Definition init_validates : bool := {"true" if init_validates else "false"}.\n')
+
+
+def common_mod():
+    return common
